@@ -75,6 +75,25 @@ func (h *c11Health) Check(ctx context.Context, _ *healthpb.HealthCheckRequest) (
 	return &healthpb.HealthCheckResponse{Status: healthpb.HealthCheckResponse_SERVING}, nil
 }
 
+// Watch: a long-lived server stream: one response (with the session tag in the header), then it stays open until the
+// client goes away or the server stops.
+func (h *c11Health) Watch(_ *healthpb.HealthCheckRequest, s healthpb.Health_WatchServer) error {
+	_ = s.SetHeader(metadata.Pairs("x-vf-session", h.tag))
+	if err := s.Send(&healthpb.HealthCheckResponse{Status: healthpb.HealthCheckResponse_SERVING}); err != nil {
+		return err
+	}
+	<-s.Context().Done()
+	return s.Context().Err()
+}
+
+type c11WatchStream struct {
+	by     string // tag of the session that serves it ("" until the first response has arrived)
+	err    error
+	done   chan struct{}
+	cancel context.CancelFunc
+	opened time.Time
+}
+
 type c11Far struct {
 	tag     string
 	conn    net.Conn
@@ -377,6 +396,69 @@ func c11Run(t *testing.T, c c11Case) (res c11Result) {
 					fail("%s: %d session(s) have been registered for >=20 virtual seconds but the call fails: %v", where, len(live), err)
 				}
 			}
+			var watches []*c11WatchStream
+			watch := func() {
+				if len(watches) >= 3 || len(liveFars()) == 0 {
+					return
+				}
+				wctx, wcancel := context.WithCancel(context.Background())
+				ws := &c11WatchStream{done: make(chan struct{}), cancel: wcancel, opened: time.Now()}
+				watches = append(watches, ws)
+				go func() {
+					defer close(ws.done)
+					var hdr metadata.MD
+					st, err := healthpb.NewHealthClient(mcc).Watch(wctx, &healthpb.HealthCheckRequest{})
+					if err == nil {
+						_, err = st.Recv()
+					}
+					if err == nil {
+						hdr, err = st.Header()
+					}
+					if err != nil {
+						mu.Lock()
+						ws.err = err
+						mu.Unlock()
+						return
+					}
+					mu.Lock()
+					if v := hdr.Get("x-vf-session"); len(v) > 0 {
+						ws.by = v[0]
+					}
+					mu.Unlock()
+					_, err = st.Recv() // stays open: returns only when the stream ends
+					mu.Lock()
+					ws.err = err
+					mu.Unlock()
+				}()
+				time.Sleep(2 * time.Second)
+				res.classes["long_lived_stream_opened"] = true
+			}
+			// a stream that is open on a session which is still registered must still be open: nothing but the end of
+			// its session (or of the client) ends it - not the passing of time
+			watchCheck := func(where string) {
+				var keep []*c11WatchStream
+				for _, ws := range watches {
+					mu.Lock()
+					by, err := ws.by, ws.err
+					mu.Unlock()
+					select {
+					case <-ws.done:
+						if by != "" {
+							for _, f := range fars {
+								if f.tag == by && !f.removed {
+									fail("%s: a long-lived stream served over session %q, opened %v ago, failed although that session is still registered: %v", where, by, time.Since(ws.opened).Round(time.Second), err)
+								}
+							}
+						}
+					default:
+						if by != "" && time.Since(ws.opened) >= 25*time.Second {
+							res.classes["long_lived_stream_alive_after_25s"] = true
+						}
+						keep = append(keep, ws)
+					}
+				}
+				watches = keep
+			}
 			stateCheck("start")
 			for i, o := range c.Ops {
 				if res.viol != "" {
@@ -414,10 +496,13 @@ func c11Run(t *testing.T, c c11Case) (res c11Result) {
 					}
 				case "rpc":
 					rpc(where)
+				case "watch":
+					watch()
 				case "advance":
 					time.Sleep(time.Duration(o.Ms) * time.Millisecond)
 				}
 				stateCheck(where)
+				watchCheck(where)
 			}
 			res.nontriv = (res.classes["removed_the_session_that_served_last"] && res.classes["served_by_a_different_session_than_before"]) || res.classes["empty_to_nonempty"]
 			// settle and make a final call in the final configuration
@@ -426,6 +511,10 @@ func c11Run(t *testing.T, c c11Case) (res c11Result) {
 				poll()
 				rpc("final call")
 				stateCheck("final")
+				watchCheck("final")
+			}
+			for _, ws := range watches {
+				ws.cancel()
 			}
 			cancel()
 			for _, f := range fars {
@@ -450,7 +539,7 @@ func c11Run(t *testing.T, c c11Case) (res c11Result) {
 	return res
 }
 
-const c11Rule = "real MultiClientConn (production dial options) + real multiMuxManager/muxProvider + real yamux over net.Pipe + a real gRPC health server per session that reports its session tag, in a virtual-time bubble; rapid histories of add / addSlow (the far end reads nothing for 12 s: the session's first health-check ping fails and its state is Error while it stays open and registered) / remove (closed locally or by the remote end) / flap (remove+add) / removeAll / rpc (unary, 5 s deadline) / advance (10 ms - 60 s, occasionally 32 minutes without any call: longer than gRPC's idle timeout); state oracle after every step: keys the dialer accepts == registered sessions == CanMakeCalls, the dialer opens streams on every registered session and on no removed one; behaviour oracle: a successful call was served by a currently registered session; with no session calls report Unavailable/DeadlineExceeded; >=20 virtual seconds after the last change a call succeeds whenever a session exists; non-trivial = the session that served the previous call was removed and a later call was served by another one, or an empty->non-empty transition; distinct = distinct histories"
+const c11Rule = "real MultiClientConn (production dial options) + real multiMuxManager/muxProvider + real yamux over net.Pipe + a real gRPC health server per session that reports its session tag, in a virtual-time bubble; rapid histories of add / addSlow (the far end reads nothing for 12 s: the session's first health-check ping fails and its state is Error while it stays open and registered) / remove (closed locally or by the remote end) / flap (remove+add) / removeAll / rpc (unary, 5 s deadline) / watch (a long-lived server stream, at most three: it must stay open for as long as the session that serves it is registered) / advance (10 ms - 60 s, occasionally 32 minutes without any call: longer than gRPC's idle timeout); state oracle after every step: keys the dialer accepts == registered sessions == CanMakeCalls, the dialer opens streams on every registered session and on no removed one; behaviour oracle: a successful call was served by a currently registered session; with no session calls report Unavailable/DeadlineExceeded; >=20 virtual seconds after the last change a call succeeds whenever a session exists; non-trivial = the session that served the previous call was removed and a later call was served by another one, or an empty->non-empty transition; distinct = distinct histories"
 
 func c11Gen(t *rapid.T) c11Case {
 	var c c11Case
@@ -468,8 +557,10 @@ func c11Gen(t *rapid.T) c11Case {
 			c.Ops = append(c.Ops, c11Op{K: "flap", I: rapid.IntRange(0, 3).Draw(t, "i"), By: rapid.SampledFrom([]string{"local", "remote"}).Draw(t, "by")})
 		case x < 53:
 			c.Ops = append(c.Ops, c11Op{K: "removeAll"})
-		case x < 80:
+		case x < 78:
 			c.Ops = append(c.Ops, c11Op{K: "rpc"})
+		case x < 83:
+			c.Ops = append(c.Ops, c11Op{K: "watch"})
 		default:
 			c.Ops = append(c.Ops, c11Op{K: "advance", Ms: rapid.SampledFrom([]int{10, 1000, 5000, 21000, 21000, 60000, 60000, 1900000}).Draw(t, "ms")})
 		}
